@@ -142,6 +142,13 @@ func CanDescend(v any) bool {
 // StructToMap converts a struct to a map using JSON tags for keys.
 // Nested structs are recursively converted to maps as well.
 func StructToMap(data any) map[string]any {
+	return structToMap(data, map[uintptr]bool{})
+}
+
+// structToMap implements StructToMap. The visiting set holds the struct pointers on the
+// current conversion path: a pointer that leads back to one of them (cyclic data such as
+// parent/child back references) is left as it is instead of being expanded forever.
+func structToMap(data any, visiting map[uintptr]bool) map[string]any {
 	result := make(map[string]any)
 	if data == nil {
 		return result
@@ -152,6 +159,10 @@ func StructToMap(data any) map[string]any {
 	for rv.Kind() == reflect.Ptr {
 		if rv.IsNil() {
 			return result
+		}
+		if p := rv.Pointer(); !visiting[p] {
+			visiting[p] = true
+			defer delete(visiting, p)
 		}
 		rv = rv.Elem()
 	}
@@ -181,9 +192,11 @@ func StructToMap(data any) map[string]any {
 		fv := rv.Field(i)
 		fieldValue := fv.Interface()
 
-		// Recursively convert nested structs
+		// Recursively convert nested structs (a pointer back into the current path stays a pointer)
 		if fv.Kind() == reflect.Struct || (fv.Kind() == reflect.Ptr && fv.Type().Elem().Kind() == reflect.Struct) {
-			fieldValue = StructToMap(fieldValue)
+			if fv.Kind() != reflect.Ptr || fv.IsNil() || !visiting[fv.Pointer()] {
+				fieldValue = structToMap(fieldValue, visiting)
+			}
 		}
 
 		result[tagName] = fieldValue
@@ -234,7 +247,13 @@ func PopulateStructFields(m map[string]any, data any) {
 
 		// Convert nested structs to maps so they can be accessed with JSON tag paths
 		if fv.Kind() == reflect.Struct || (fv.Kind() == reflect.Ptr && fv.Type().Elem().Kind() == reflect.Struct) {
-			fieldValue = StructToMap(fieldValue)
+			visiting := map[uintptr]bool{}
+			if orig := reflect.ValueOf(data); orig.Kind() == reflect.Ptr {
+				visiting[orig.Pointer()] = true
+			}
+			if fv.Kind() != reflect.Ptr || fv.IsNil() || !visiting[fv.Pointer()] {
+				fieldValue = structToMap(fieldValue, visiting)
+			}
 		}
 
 		// Add the field itself (for path resolution like item.inStock)
